@@ -27,6 +27,11 @@ def table_db(wd):
               c10.frame(a4, b4, 43000, 80, 101, 501, 0x18, R, ipid=13), c10.frame(b4, a4, 80, 43000, 501, 101 + len(R), 0x18, S, ipid=14, ttl=128),
               c10.frame6(a6, b6, 43001, 80, 100, 0, 0x02, opts=so), c10.frame6(b6, a6, 80, 43001, 500, 101, 0x12, opts=so, hlim=128),
               c10.frame6(a6, b6, 43001, 80, 101, 501, 0x18, R), c10.frame6(b6, a6, 80, 43001, 501, 101 + len(R), 0x18, S, hlim=128)]
+    # a request without any User-Agent and a response without Server: signatures that do not demand these fields are looked up like all others
+    Rn = b"GET /t-anon HTTP/1.1\r\nHost: t.example\r\nAccept: */*\r\n\r\n"
+    Sn = b"HTTP/1.1 200 OK\r\nContent-Type: text/plain\r\n\r\nok"
+    frames += [c10.frame(a4, b4, 43002, 80, 100, 0, 0x02, opts=so, ipid=15), c10.frame(b4, a4, 80, 43002, 500, 101, 0x12, opts=so, ipid=16, ttl=128),
+               c10.frame(a4, b4, 43002, 80, 101, 501, 0x18, Rn, ipid=17), c10.frame(b4, a4, 80, 43002, 501, 101 + len(Rn), 0x18, Sn, ipid=18, ttl=128)]
     hexes = [f.hex() for f in frames]
     # 1. what the analyzers observe (no matcher)
     req = os.path.join(wd, "tsel0.req")
@@ -46,8 +51,8 @@ def table_db(wd):
                 for k in ("req", "resp"):
                     if r_.get(k):
                         http_texts.add(r_[k]["sig"]["text"])
-    if len(tcp_texts) < 4 or len(http_texts) < 2:
-        raise vlib.ToolError("table selection: expected 4 TCP and 2 HTTP observations, got %d / %d" % (len(tcp_texts), len(http_texts)))
+    if len(tcp_texts) < 4 or len(http_texts) < 4:
+        raise vlib.ToolError("table selection: expected 4 TCP and 4 HTTP observations, got %d / %d" % (len(tcp_texts), len(http_texts)))
     db = ["classes = win,unix,other", "[mtu]", "label = Ethernet", "sig = 1500"]
     for sec, lab, texts in (("tcp:request", "s:unix:TcpRequestTable:x", tcp_texts), ("tcp:response", "s:unix:TcpResponseTable:x", tcp_texts),
                             ("http:request", "s:!:HttpRequestTable:x", http_texts), ("http:response", "s:!:HttpResponseTable:x", http_texts)):
